@@ -31,7 +31,7 @@ func TestVerifC04Conc(t *testing.T) {
 		}
 		w.AlwaysStability = true
 		nc, nr := 4+rng.IntN(7), 4+rng.IntN(5)
-		perCommitter := vcommon.Scale(120, 250)
+		perCommitter := vcommon.Scale(120, 160)
 		var wg sync.WaitGroup
 		stop := make(chan struct{})
 		for c := 0; c < nc; c++ {
